@@ -20,21 +20,19 @@ def listingOf (opt : α → Bool) : List α → Bool → List (α × Bool)
 
 /-- the text of one listed expectation (sequence.hpp, validate_match). -/
 def renderEntry (first : Bool) (e : α × Bool) : List (Tok α) :=
-  (if first then [Tok.lit "Sequence \"", Tok.seqName, Tok.lit "\" has "] else [Tok.lit "and has "]) ++
+  (if first then [Tok.text, Tok.seqName, Tok.key "has"] else [Tok.key "andHas"]) ++
   [Tok.expectation e.1] ++
-  [if e.2 then Tok.lit " first in line\n" else Tok.lit " as first required expectation\n"]
+  [if e.2 then Tok.key "firstInLine" else Tok.key "firstRequired"]
 
 def renderListing : List (α × Bool) → Bool → List (Tok α)
   | [], _ => []
   | e :: es, first => renderEntry first e ++ renderListing es false
 
 def mismatchHeader : List (Tok α) :=
-  [Tok.lit "Sequence mismatch for sequence \"", Tok.seqName, Tok.lit "\" with matching call of ", Tok.matchName,
-   Tok.lit " at ", Tok.loc, Tok.lit ".\n"]
+  [Tok.key "seqMismatch", Tok.seqName, Tok.text, Tok.matchName, Tok.text, Tok.loc, Tok.text]
 
 def noMoreText : List (Tok α) :=
-  [Tok.lit "Sequence mismatch for sequence \"", Tok.seqName, Tok.lit "\" with matching call of ", Tok.matchName,
-   Tok.lit " at ", Tok.loc, Tok.lit ". Sequence \"", Tok.seqName, Tok.lit "\" has no more pending expectations\n"]
+  [Tok.key "seqMismatch", Tok.seqName, Tok.text, Tok.matchName, Tok.text, Tok.loc, Tok.text, Tok.seqName, Tok.key "noMore"]
 
 /-- what `validate_match` reports, in terms of the model's `seqCost` and listing. -/
 def renderValidate [DecidableEq α] (sat opt : α → Bool) (o : α) (l : List α) : Option (List (Tok α)) :=
